@@ -36,7 +36,9 @@ fn field_of(step: &EncodingStep) -> (u8, usize) {
 }
 
 /// alias resolution outcome: 0 = none, 1 = alias with topic, 2 = alias, topic skipped
-fn publish_body(v5: bool, amode: u8, pm: u8, with_payload: bool, cap: usize, q: u8) {
+fn publish_body(v5: bool, amode: u8, pm: u8, with_payload: bool, cap: usize, q: u8) { publish_body_len(v5, amode, pm, with_payload, cap, q, 3, 5) }
+
+fn publish_body_len(v5: bool, amode: u8, pm: u8, with_payload: bool, cap: usize, q: u8, payload_len: usize, ct_len: usize) {
     // QoS is concrete per shape: a conditional push makes every later deque slot index symbolic (measured: out of memory)
     // pm: property subset bit mask: 1 = payload format + message expiry, 2 = response topic + correlation data, 4 = content type + one user property
     let (p1, p2, p4) = (pm & 1 != 0, pm & 2 != 0, pm & 4 != 0);
@@ -49,12 +51,12 @@ fn publish_body(v5: bool, amode: u8, pm: u8, with_payload: bool, cap: usize, q: 
     // field contents are irrelevant to the layout (they are copied by the slice steps, c02_step_slices); lengths are concrete
     let inner = PublishPacket {
         topic: "tt".to_string(), qos: qos_of(q), packet_id: pid, duplicate: dup, retain,
-        payload: if with_payload { Some(vec![7u8; 3]) } else { None },
+        payload: if with_payload { Some(vec![7u8; payload_len]) } else { None },
         payload_format: if p1 { Some(if pfi { PayloadFormatIndicator::Utf8 } else { PayloadFormatIndicator::Bytes }) } else { None },
         message_expiry_interval_seconds: if p1 { Some(mei) } else { None },
         response_topic: if p2 { Some("r".to_string()) } else { None },
         correlation_data: if p2 { Some(vec![1u8; 4]) } else { None },
-        content_type: if p4 { Some("ccccc".to_string()) } else { None },
+        content_type: if p4 { Some(unsafe { String::from_utf8_unchecked(vec![b'c'; ct_len]) }) } else { None },
         user_properties: if p4 { Some(vec![UserProperty { name: "n".to_string(), value: "vv".to_string() }]) } else { None },
         topic_alias: if kani::any() { Some(kani::any()) } else { None }, // the user's alias wish; only the RESOLUTION reaches the wire
         ..Default::default()
@@ -79,12 +81,12 @@ fn publish_body(v5: bool, amode: u8, pm: u8, with_payload: bool, cap: usize, q: 
         if p1 { w.u8(1); w.u8(if pfi { 1 } else { 0 }); w.u8(2); w.u32(mei); }
         if amode != 0 { w.u8(35); w.u16(alias); }
         if p2 { w.u8(8); w.lp(F_RESPONSE_TOPIC, 0, 1); w.u8(9); w.lp(F_CORRELATION, 0, 4); }
-        if p4 { w.u8(3); w.lp(F_CONTENT_TYPE, 0, 5); w.u8(38); w.lp(F_UP_NAME, 0, 1); w.lp(F_UP_VALUE, 0, 2); }
+        if p4 { w.u8(3); w.lp(F_CONTENT_TYPE, 0, ct_len); w.u8(38); w.lp(F_UP_NAME, 0, 1); w.lp(F_UP_VALUE, 0, 2); }
         w.in_props = false;
         let plen = w.bytes_from(pl + 1, true);
         w.fill(pl, plen);
     }
-    if with_payload { w.raw(F_PAYLOAD, 0, 3); }
+    if with_payload { w.raw(F_PAYLOAD, 0, payload_len); }
     let rlen = w.bytes_from(rl + 1, false);
     w.fill(rl, rlen);
     kani::cover!(dup && retain, "DUP and RETAIN flags set");
@@ -155,3 +157,19 @@ fn c02_publish311() { publish_body(false, 2, 7, true, 8, 1) }
 #[kani::unwind(10)]
 #[kani::stub(std::fmt::format, stub_format)]
 fn c02_publish311_q0_nopayload() { publish_body(false, 0, 0, false, 8, 0) }
+
+// @gv props=C02 tier=quick required=yes fns=write_publish_encoding_steps5,compute_publish_packet_length_properties5
+// @gv bounds="PUBLISH/MQTT5 whose property section (content type of 130 bytes + user property) needs a two-byte and whose remaining length (payload of 20000 bytes) needs a three-byte Variable Byte Integer; symbolic id and flags"
+// @gv timeout=1200 mem=12
+#[kani::proof]
+#[kani::unwind(18)]
+#[kani::stub(std::fmt::format, stub_format)]
+fn c02_publish5_vbi_boundaries() { publish_body_len(true, 0, 4, true, 16, 1, 20000, 130) }
+
+// @gv props=C02 tier=thorough required=no fns=write_publish_encoding_steps311,compute_publish_packet_length_properties311
+// @gv bounds="PUBLISH/MQTT3.1.1 with a 200-byte payload (two-byte remaining length)"
+// @gv timeout=1200 mem=12
+#[kani::proof]
+#[kani::unwind(10)]
+#[kani::stub(std::fmt::format, stub_format)]
+fn c02_publish311_two_byte_length() { publish_body_len(false, 0, 0, true, 8, 1, 200, 5) }
